@@ -1,7 +1,7 @@
 """C03  returned tree == documented shaping of a derivation; engines agree on single-derivation inputs"""
 from ..core import STEPS, digest, canon_tree
 from ..common import build, call, basic_tokens, named_types
-from ..gram import RefGrammar, print_grammar, duplicate_empty_alternatives
+from ..gram import RefGrammar, print_grammar, duplicate_empty_alternatives, colliding_optionals
 from .. import ref as R, gen
 from .c01 import model as c01_model
 
@@ -35,6 +35,12 @@ def run_grammar(ctx, G, family, inputs, optsets, engines=ENGINES):
     text = print_grammar(G)
     if duplicate_empty_alternatives(G):
         ctx.count('skipped-duplicate-empty-alternatives')
+        return
+    if colliding_optionals(G):
+        # two alternatives of one rule spell the same symbol sequence (a literal counts as the named terminal it coincides
+        # with): lark raises the documented "Rules defined twice" or silently keeps one of them - either way the set of
+        # derivations is not what the AST says, so tree-level oracles do not judge such grammars
+        ctx.count('skipped-colliding-alternatives')
         return
     rg = RefGrammar(G)
     if rg.is_cyclic():
@@ -80,7 +86,10 @@ def run_grammar(ctx, G, family, inputs, optsets, engines=ENGINES):
                     ctx.inconc('wall guard', case)
                     continue
                 if out[0] == 'budget':
-                    ctx.violation('no-termination', case, {})
+                    if parser == 'cyk':
+                        ctx.count('cyk-too-expensive(not judged)')      # O(n^3 |G|) is CYK's nature, not a hang
+                    else:
+                        ctx.violation('no-termination', case, {})
                     continue
                 if out[0] == 'exc':
                     if parser == 'lalr':
